@@ -50,10 +50,18 @@ class FuncInfo:
         self.is_static = "staticmethod" in self.decorators
         self.is_classmethod = "classmethod" in self.decorators
         self.is_contextmanager = any(d.endswith("contextmanager") for d in self.decorators)
-        seg = ast.get_source_segment(module.source, node) or ""
-        self.sha256 = hashlib.sha256(seg.encode()).hexdigest()
+        self._sha = None
         self.lineno = node.lineno
         self.end_lineno = node.end_lineno
+
+    @property
+    def sha256(self):
+        # hash of the function's source lines (decorators excluded, as ast.get_source_segment would give them), lazily
+        if self._sha is None:
+            lines = self.module.lines
+            seg = "".join(lines[self.node.lineno - 1:self.node.end_lineno])
+            self._sha = hashlib.sha256(seg.encode()).hexdigest()
+        return self._sha
 
     def describe(self):
         return {"function": self.qualname, "file": os.path.relpath(self.module.path, REPO_ROOT),
@@ -163,6 +171,7 @@ class ModuleInfo:
         self.path = path
         with open(path, encoding="utf-8") as fh:
             self.source = fh.read()
+        self.lines = self.source.splitlines(True)
         self.tree = ast.parse(self.source, filename=path)
         self.functions: dict[str, FuncInfo] = {}
         self.classes: dict[str, ClassInfo] = {}
